@@ -539,18 +539,20 @@ impl Compress {
         let uncompressed_name_len = Compress::raw_name_len_after_decompression(packet, offset);
         let initial_compressed_len = compressed.len();
         let final_offset = offset + uncompressed_name_len;
+        let mut depth = 0;
         loop {
             let label_len = packet[offset] as usize;
             if label_len & 0xc0 == 0xc0 {
                 panic!("copy_compressed_name() called on an already compressed name");
             }
-            if let Some(ref_offset) = dict.insert(
+            if let Some((ref_offset, ref_depth)) = dict.insert(
                 &packet[offset..final_offset],
                 base_offset + (compressed.len() - initial_compressed_len),
             ) {
                 assert!(ref_offset < 65536 >> 2); // Checked in dict.insert()
                 compressed.push((ref_offset >> 8) as u8 | 0xc0);
                 compressed.push((ref_offset & 0xff) as u8);
+                depth = ref_depth + 1;
                 break;
             }
             let offset_next = offset + 1 + label_len;
@@ -560,6 +562,8 @@ impl Compress {
                 break;
             }
         }
+        // Names pointing to this one will go through `depth` more indirections
+        dict.set_depth_from(base_offset, depth);
         CompressedNameResult {
             name_len: compressed.len() - initial_compressed_len,
             final_offset,
@@ -587,6 +591,8 @@ const MAX_SUFFIXES: usize = 32;
 struct Suffix {
     offset: usize,
     len: usize,
+    /// Number of indirections needed to decode the name stored at `offset`
+    depth: u16,
     suffix: [u8; MAX_SUFFIX_LEN],
 }
 
@@ -595,6 +601,7 @@ impl Default for Suffix {
         Self {
             offset: 0,
             len: 0,
+            depth: 0,
             suffix: [0u8; MAX_SUFFIX_LEN],
         }
     }
@@ -616,7 +623,7 @@ impl SuffixDict {
     /// Inserts a new suffix into the suffix table
     /// Returns the offset of an existing suffix, if there is any, or `None` if
     /// there was none.
-    fn insert(&mut self, suffix: &[u8], offset: usize) -> Option<usize> {
+    fn insert(&mut self, suffix: &[u8], offset: usize) -> Option<(usize, u16)> {
         if offset >= 65536 >> 2 {
             return None;
         }
@@ -627,9 +634,10 @@ impl SuffixDict {
         for i in 0..self.count {
             let candidate = &self.suffixes[i];
             if candidate.len <= suffix_len
+                && candidate.depth < DNS_MAX_HOSTNAME_INDIRECTIONS
                 && Self::raw_names_eq_ignore_case(suffix, &candidate.suffix[..candidate.len])
             {
-                return Some(candidate.offset);
+                return Some((candidate.offset, candidate.depth));
             }
         }
 
@@ -638,6 +646,7 @@ impl SuffixDict {
         debug_assert_eq!(len, suffix_len);
         entry.len = suffix_len;
         entry.offset = offset;
+        entry.depth = 0;
         self.index += 1;
         self.count = cmp::max(self.index, self.count);
         if self.index == MAX_SUFFIXES {
@@ -646,6 +655,16 @@ impl SuffixDict {
                             // question
         }
         None
+    }
+
+    /// Records the number of indirections needed to decode the suffixes
+    /// stored at or after `offset` (the ones of the name just emitted).
+    fn set_depth_from(&mut self, offset: usize, depth: u16) {
+        for entry in self.suffixes[..self.count].iter_mut() {
+            if entry.offset >= offset {
+                entry.depth = depth;
+            }
+        }
     }
 
     /// Copy a trusted raw DNS name into a `to` slice.
